@@ -81,7 +81,14 @@ func main() {
 		}
 		res := core.Worker(*prop, *engine, *tier, *seed, *from, *step, *total, deadline)
 		b, _ := json.Marshal(res)
-		os.Stdout.Write(b)
+		if f := os.Getenv("VERIF_WORKER_OUT"); f != "" {
+			if err := os.WriteFile(f, b, 0o644); err != nil {
+				fmt.Fprintln(os.Stderr, "cannot write worker result:", err)
+				os.Exit(2)
+			}
+		} else {
+			os.Stdout.Write(b)
+		}
 		if res.Fatal != "" {
 			os.Exit(2)
 		}
